@@ -95,6 +95,7 @@ def run(ctx):
     ctx.rule('C18.CONTENTTYPE', lambda: c18x.rule_content_type(ctx), 2)
     ctx.rule('C18.STREAM', lambda: c18x.rule_stream_chunks(ctx), 1)
     ctx.rule('C18.TIMEOUT', lambda: c18x.rule_total_timeout(ctx), 1)
+    ctx.rule('C18.HEIGHTREPLY', lambda: c18x.rule_height_reply(ctx), 1)
     ctx.rule('C18.HANDLERSAFE', lambda: c18x.rule_handlersafe(ctx, send_parts, send_names, handler_names), 7)
 
 
